@@ -95,4 +95,35 @@ def orErr {α : Type} : Option α → Outcome α
   | some a => .ok a
   | none => .err
 
+/-- `ByteArray::<N>::as_array()` on a slice (/repo/src/types.rs): `assert!(self.len() >= LENGTH)`, then a
+pointer cast to `&[u8; N]` (the first `N` bytes) -/
+def asArray (n : Nat) (x : Bytes) : Outcome Bytes :=
+  if x.length < n then .panic else .ok (x.take n)
+
+/-- `x.rotate_left(k)` : `assert!(k <= self.len())` -/
+def rotateLeftChecked (x : Bytes) (k : Nat) : Outcome Bytes :=
+  if k > x.length then .panic else .ok (x.drop k ++ x.take k)
+
+/-- `x.rotate_right(k)` : `assert!(k <= self.len())` -/
+def rotateRightChecked (x : Bytes) (k : Nat) : Outcome Bytes :=
+  if k > x.length then .panic else .ok (x.drop (x.length - k) ++ x.take (x.length - k))
+
+/-- number of 64-byte blocks that `bytes` bytes occupy, as `check_remaining` computes it:
+`if bytes % bs == 0 { bytes / bs } else { bytes / bs + 1 }` -/
+def blocksOf (bytes : Nat) : Nat := if bytes % 64 = 0 then bytes / 64 else bytes / 64 + 1
+
+/-- `StreamCipherCoreWrapper::check_remaining(dlen)` of crate `cipher` 0.4.4 (src/stream_wrapper.rs),
+block size 64, followed by the `.unwrap()` of `StreamCipher::apply_keystream`:
+`remBlocks` is `core.remaining_blocks()` (ChaCha20 0.9.1: `u32::MAX - block_pos`; Salsa20 0.10.2:
+`u64::MAX - block_pos`), `bytePos` is the wrapper's `pos` (bytes of the current key-stream block already
+used).  `Err(StreamCipherError)` becomes a panic through the `unwrap`. -/
+def checkRemaining (remBlocks bytePos dlen : Nat) : Outcome Unit :=
+  if bytePos = 0 then
+    if blocksOf dlen > remBlocks then .panic else .ok ()
+  else
+    let rem := 64 - bytePos
+    if dlen > rem then
+      if blocksOf (dlen - rem) > remBlocks then .panic else .ok ()
+    else .ok ()
+
 end DryocVerif.Model.Raw
